@@ -257,11 +257,42 @@ def run(ctx) -> None:
     r4.check(okdyn,
              "dynamic calculators sum matrix elements over whole group pairs", dy, dy.node,
              "DynamicCalculator no longer sums matrix elements over whole degenerate groups", stmt="trace_ln over groups")
+    # the Fermi-sea block (0, n) added below the scanned window must not cut a degenerate group either
+    from .groups import check_completion_blocks
+    gk_ = idx.function("wannierberri/data_K/data_K.py", "Data_K.get_bands_in_range_groups_ik")
+    r4.instance(f"{gk_.short}: sea block")
+    check_completion_blocks(r4, idx, gk_, want=("sea",))
+    # the random-gauge rotation may only mix bands that every calculator treats as one group: its default threshold must not
+    # exceed the calculators' default degeneracy threshold
+    dki = idx.function("wannierberri/data_K/data_K.py", "Data_K.__init__")
+    cci = idx.function("wannierberri/calculators/calculator.py", "Calculator.__init__")
+
+    def default_of(fn, pname):
+        a_ = fn.node.args
+        names_ = [x.arg for x in a_.posonlyargs + a_.args]
+        if pname in names_:
+            i_ = names_.index(pname) - (len(names_) - len(a_.defaults))
+            return const_of(a_.defaults[i_]) if i_ >= 0 else None
+        for x, d_ in zip(a_.kwonlyargs, a_.kw_defaults):
+            if x.arg == pname and d_ is not None:
+                return const_of(d_)
+        return None
+    t_rg, t_calc = default_of(dki, "degen_thresh_random_gauge"), default_of(cci, "degen_thresh")
+    r4.expect(isinstance(t_rg, (int, float)) and isinstance(t_calc, (int, float)), "degeneracy threshold defaults located", dki, dki.node,
+              f"defaults of degen_thresh_random_gauge / degen_thresh are not numeric literals ({t_rg!r}, {t_calc!r})")
+    if isinstance(t_rg, (int, float)) and isinstance(t_calc, (int, float)):
+        r4.instance(f"defaults: degen_thresh_random_gauge={t_rg}, Calculator degen_thresh={t_calc}")
+        r4.check(t_rg <= t_calc, "random-gauge threshold ≤ calculators' grouping threshold (defaults)", dki, dki.node,
+                 f"by default the random gauge mixes bands closer than {t_rg} but the calculators only treat bands closer than {t_calc} as one "
+                 f"group: pairs split by between {t_calc} and {t_rg} are rotated into each other yet traced separately, so results depend "
+                 f"on the arbitrary rotation", stmt=f"degen_thresh_random_gauge={t_rg}")
 
 
 from ..selftest import V  # noqa: E402
 
 SELFTEST = [
+    V("random-gauge threshold looser than the calculators' (seeded C04-m4)", "wannierberri/data_K/data_K.py", "degen_thresh_random_gauge=1e-4,", "degen_thresh_random_gauge=1e-3,", "fire", "R04.4"),
+    V("sea block clamped at the end of the first group (seeded C04-m3)", "wannierberri/data_K/data_K.py", "bandmax = min(bandmax, bands_in_range[0][0])", "bandmax = min(bandmax, bands_in_range[0][1])", "fire", "R04.4"),
     V("loop over a never-defined attribute (original defect)", DK, "for ik, deg in enumerate(self.degen):",
       "for ik, deg in enumerate(self.true):", "fire", "R04.1"),
     V("threshold read under a different spelling (original defect)", DK,
